@@ -383,7 +383,7 @@ pub fn std_params<G: Group>(bits: usize, cap: usize, ext: usize) -> RangeParamet
         // make sure compressed forms of the Pedersen generators are interned in this run
         return p;
     }
-    let p = G::params(bits, cap, G::pedersen(ext)).expect("standard parameters");
+    let p = valid_params::<G>(bits, cap, G::pedersen(ext));
     PARAMS_RISTRETTO.with(|c| {
         let mut c = c.borrow_mut();
         if c.len() > 64 {
@@ -486,8 +486,20 @@ pub fn related_pedersen<G: Group>(ext: usize, variant: u8, bits: usize) -> Optio
     Some(pc)
 }
 
+/// panic payload: the library refused (or panicked in) a parameter construction whose arguments the harness
+/// knows to be valid. Checks whose oracle compares operation results (C18) catch it and make it the result.
+pub struct ValidConstructionRefused(pub String);
+
+pub fn valid_params<G: Group>(bits: usize, cap: usize, pc: PedersenGens<G>) -> RangeParameters<G> {
+    match catch_unwind(AssertUnwindSafe(|| G::params(bits, cap, pc))) {
+        Ok(Ok(p)) => p,
+        Ok(Err(e)) => std::panic::panic_any(ValidConstructionRefused(format!("refused:{}", err_class(&e)))),
+        Err(_) => std::panic::panic_any(ValidConstructionRefused("panicked".to_string())),
+    }
+}
+
 pub fn custom_params<G: Group>(bits: usize, cap: usize, pc: PedersenGens<G>) -> RangeParameters<G> {
-    G::params(bits, cap, pc).expect("custom parameters")
+    valid_params::<G>(bits, cap, pc)
 }
 
 // ---- guarded library calls -------------------------------------------------------------------
